@@ -17,6 +17,7 @@ open Ctrmml Ctrmml.Alloc
 inductive Carried
   | data (addr : Nat) (flag : Bool) (bytes : Bytes)
   | pcm (addr : Nat) (hdr : Wave.Sample) (bytes : Bytes)   -- the song's header and `pcmd[position, position+size)`
+  deriving DecidableEq
 
 /-- the `uint16_t` patch address of entry `id` -/
 def slotAddr (sdata id : Nat) : Nat := Wave.u32 (sdata + Wave.u32 (id * 2)) % 65536
@@ -57,14 +58,16 @@ structure Ext (bank : List Bytes) (w : Wave.Bank) (rs : List Win) (bank' : List 
   regions : ∀ r ∈ rs, r ∈ rs'
   stable : ∀ win : Win, (∃ r ∈ rs, r.lo ≤ win.lo ∧ win.lo + win.len ≤ r.lo + r.len) → win.reads w'.rom = win.reads w.rom
   count : w.samples.length ≤ w'.samples.length
+  same : w'.maxSize = w.maxSize ∧ w'.bankSize = w.bankSize
 
 theorem Ext.refl (bank : List Bytes) (w : Wave.Bank) (rs : List Win) : Ext bank w rs bank w rs :=
-  ⟨fun _ _ h => h, fun _ h => h, fun _ h => h, fun _ _ => rfl, Nat.le_refl _⟩
+  ⟨fun _ _ h => h, fun _ h => h, fun _ h => h, fun _ _ => rfl, Nat.le_refl _, rfl, rfl⟩
 
 theorem Ext.trans {b1 b2 b3 : List Bytes} {w1 w2 w3 : Wave.Bank} {r1 r2 r3 : List Win}
     (x : Ext b1 w1 r1 b2 w2 r2) (y : Ext b2 w2 r2 b3 w3 r3) : Ext b1 w1 r1 b3 w3 r3 := by
   refine ⟨fun i e h => y.bank i e (x.bank i e h), fun s h => y.samples s (x.samples s h),
-    fun r h => y.regions r (x.regions r h), ?_, Nat.le_trans x.count y.count⟩
+    fun r h => y.regions r (x.regions r h), ?_, Nat.le_trans x.count y.count,
+    by rw [y.same.1, x.same.1], by rw [y.same.2, x.same.2]⟩
   intro win ⟨r, hr, h1, h2⟩
   rw [y.stable win ⟨r, x.regions r hr, h1, h2⟩, x.stable win ⟨r, hr, h1, h2⟩]
 
@@ -85,6 +88,12 @@ theorem Resolves.mono {bank bank' : List Bytes} {w w' : Wave.Bank} {rs rs' : Lis
 inductive All2 {α β : Type} (R : α → β → Prop) : List α → List β → Prop
   | nil : All2 R [] []
   | cons {a : α} {b : β} {as : List α} {bs : List β} : R a b → All2 R as bs → All2 R (a :: as) (b :: bs)
+
+theorem All2.imp {α β : Type} {R S : α → β → Prop} (f : ∀ a b, R a b → S a b) {as : List α} {bs : List β}
+    (h : All2 R as bs) : All2 S as bs := by
+  induction h with
+  | nil => exact .nil
+  | cons h _ ih => exact .cons (f _ _ h) ih
 
 theorem forall2_mono {bank bank' : List Bytes} {w w' : Wave.Bank} {rs rs' : List Win} {qs : List (Nat × Nat)} {cs : List Carried}
     (h : All2 (Resolves bank w) qs cs) (inv : Wave.Inv w rs) (x : Ext bank w rs bank' w' rs') :
@@ -272,7 +281,7 @@ theorem addPcmh_step (sdata seqLen : Nat) (pcmd data : Bytes) (a a' : Acc) (rs :
                 rcases so.grows with ⟨_, g⟩ | ⟨_, s1, g⟩
                 · rw [g]; exact hs
                 · rw [g]; exact List.mem_append_left _ hs
-              refine ⟨id, header, _, _, hid, hh, rfl, so.inv, u3, ⟨u2, hsamp, hreg, so.stable, hcnt.1⟩, rfl,
+              refine ⟨id, header, _, _, hid, hh, rfl, so.inv, u3, ⟨u2, hsamp, hreg, so.stable, hcnt.1, so.same⟩, rfl,
                 (addUnique a.bank (pcmHeader s0)).1, s0, rfl, u1, List.mem_of_getElem? hs0, ?_, hsz, hrt, ?_⟩
               · rw [hst]; exact hstart
               · have : Wave.Sample.win s0 = ⟨s0.position, s0.size⟩ := by
@@ -293,7 +302,7 @@ theorem stepDblk_step (sdata seqLen : Nat) (pcmd : Bytes) (c : Riff.Riff) (a a' 
   split at h
   · rename_i hty
     obtain ⟨id, q, h1, h2, h3, h4, h5, h6⟩ := addGlob_step sdata seqLen c.data a a' hnd h
-    refine ⟨rs, by rw [h3]; exact inv, h4, ⟨h5, by rw [h3]; exact fun _ h => h, fun _ h => h, by rw [h3]; exact fun _ _ => rfl, by rw [h3]; exact Nat.le_refl _⟩, Or.inr ⟨q, _, ?_, h2, h6⟩⟩
+    refine ⟨rs, by rw [h3]; exact inv, h4, ⟨h5, by rw [h3]; exact fun _ h => h, fun _ h => h, by rw [h3]; exact fun _ _ => rfl, by rw [h3]; exact Nat.le_refl _, by rw [h3]; exact ⟨rfl, rfl⟩⟩, Or.inr ⟨q, _, ?_, h2, h6⟩⟩
     simp only [carriedOf, hty, if_true, h1]
   · split at h
     · rename_i hty1 hty
@@ -535,6 +544,29 @@ theorem runOps_inv (ops : List Op) (l l' : Linker) (rs : List Win) (src : List (
           refine ⟨rs', ?_, x1.trans x2, fun y hy => hs y ((hmem y).mpr (Or.inl hy))⟩
           simpa [Op.src, List.append_assoc] using I'
 
+theorem runOps_songs_length (ops : List Op) (l l' : Linker) (h : runOps ops l = .ok l') :
+    l'.songs.length = l.songs.length + (ops.flatMap Op.src).length := by
+  induction ops generalizing l with
+  | nil => simp only [runOps, Except.ok.injEq] at h; subst h; simp
+  | cons o ops ih =>
+    cases o with
+    | query => rw [ih l h]; simp [Op.src]
+    | add name file =>
+      simp only [runOps] at h
+      cases ho : Riff.ofBytes file with
+      | error e => rw [ho] at h; cases h
+      | ok mds =>
+        rw [ho] at h
+        simp only at h
+        cases ha : addSong l mds name with
+        | error e => rw [ha] at h; cases h
+        | ok l1 =>
+          rw [ha] at h
+          obtain ⟨rd, a, _, _, hl'⟩ := addSong_read l l1 file mds name ho ha
+          rw [ih l1 h, hl']
+          simp only [Linker.songs, songs_seqInsert_length, List.flatMap_cons, Op.src, List.length_append, List.length_cons, List.length_nil]
+          omega
+
 theorem linv_new : LInv Linker.new [] [] := by
   refine ⟨?_, by simp [Linker.new], by simp [Linker.new, Linker.songs]⟩
   exact Wave.inv_new _ _ (by decide) (by decide) (by decide)
@@ -575,5 +607,69 @@ theorem window_facts (l : Linker) (rs : List Win) (inv : Wave.Inv l.wave rs) (s 
     obtain ⟨_, _, h3⟩ := Wave.fitStart_spec l.wave.bankSize s.size (s.position + s.start) inv.bankPos hbk (by omega) (by omega)
     rw [inv.placed s hs, h0, Nat.add_zero] at h3
     exact h3 hle
+
+/-! ### fresh linkers, split histories, the bytes of a PCM header -/
+
+/-- a linker that has not been used, over a wave rom of `m` bytes in banks of `bk` (`MDSDRV_Linker()`
+is `fresh 4161536 32768`) -/
+def Linker.fresh (m bk : Nat) : Linker := { dataBank := [], seqBank := [], wave := Wave.Bank.new m bk }
+
+theorem Linker.new_eq : Linker.new = Linker.fresh Tables.mds_linkWaveRom Tables.mds_linkWaveBank := rfl
+
+theorem linv_fresh (m bk : Nat) (hm : 0 < m) (hm2 : m < 1073741824) (hb : bk < 1073741824) : LInv (Linker.fresh m bk) [] [] :=
+  ⟨Wave.inv_new m bk hm hm2 hb, by simp [Linker.fresh], by simp [Linker.fresh, Linker.songs]⟩
+
+theorem runOps_append (a b : List Op) (l : Linker) :
+    runOps (a ++ b) l = match runOps a l with | .error e => .error e | .ok l1 => runOps b l1 := by
+  induction a generalizing l with
+  | nil => rfl
+  | cons o a ih =>
+    cases o with
+    | query => simp only [List.cons_append, runOps]; exact ih l
+    | add name file =>
+      simp only [List.cons_append, runOps]
+      cases Riff.ofBytes file with
+      | error e => rfl
+      | ok mds =>
+        simp only
+        cases addSong l mds name with
+        | error e => rfl
+        | ok l1 => exact ih l1
+
+theorem pitchCode_range (rate : Nat) : 1 ≤ pitchCode rate ∧ pitchCode rate ≤ 8 := by
+  have key : ∀ cp : Nat, 1 ≤ (if cp < 1 then 1 else if cp > 8 then 8 else cp) ∧ (if cp < 1 then 1 else if cp > 8 then 8 else cp) ≤ 8 := by
+    intro cp
+    by_cases h1 : cp < 1
+    · simp [h1]
+    · by_cases h2 : cp > 8
+      · simp [h1, h2]
+      · simp only [h1, h2, if_false]; omega
+  exact key _
+
+theorem nat32be_be32 (n : Nat) (hn : n < 4294967296) (pre rest : Bytes) :
+    LinkSpec.nat32be (pre ++ be32 n ++ rest) pre.length = some n := by
+  simp only [LinkSpec.nat32be, LinkSpec.readAt, List.append_assoc, List.drop_left, be32, List.cons_append, List.nil_append,
+    List.take_succ_cons, List.take_zero, byteOf_toNat]
+  congr 1; omega
+
+/-- the two big-endian words of the 8-byte PCM header: address (24 bits) with the pitch code in the top
+byte, and the size -/
+theorem pcmHeader_fields (s : Wave.Sample) (hp : s.position + s.start < 16777216) (hs : s.size < 4294967296) :
+    LinkSpec.nat32be (pcmHeader s) 0 = some (s.position + s.start + pitchCode s.rate * 16777216) ∧
+    LinkSpec.nat32be (pcmHeader s) 4 = some s.size ∧ (pcmHeader s).length = 8 := by
+  have hpc := pitchCode_range s.rate
+  have hu : Wave.u32 (s.position + s.start) = s.position + s.start := Wave.u32_small (by omega)
+  have hor : (s.position + s.start) ||| (pitchCode s.rate * 16777216) = s.position + s.start + pitchCode s.rate * 16777216 := by
+    have := Nat.shiftLeft_add_eq_or_of_lt (i := 24) (b := s.position + s.start) (by omega) (pitchCode s.rate)
+    rw [Nat.shiftLeft_eq] at this
+    rw [Nat.or_comm, ← this]
+    omega
+  unfold pcmHeader
+  rw [hu, hor]
+  refine ⟨?_, ?_, by simp⟩
+  · have := nat32be_be32 (s.position + s.start + pitchCode s.rate * 16777216) (by omega) [] (be32 s.size)
+    simpa using this
+  · have := nat32be_be32 s.size hs (be32 (s.position + s.start + pitchCode s.rate * 16777216)) []
+    simpa using this
 
 end Ctrmml.Linker
